@@ -25,7 +25,7 @@ RULE = (
     "n_jobs 1 or 2; target model / loss / sampler). A fault-free twin is run first and counts the invocations of the target; "
     "then for EVERY invocation index k a fresh calibrator is run with an exception (an Exception subclass, or in a quarter of the n_jobs=1 cases a KeyboardInterrupt subclass) injected at the k-th invocation (model under "
     "n_jobs=2: keyed on the seed the twin used for invocation k); with n_jobs=1 the fault class rotates over Exception, ValueError and "
-    "ZeroDivisionError subclasses, an exception with a two-argument constructor and a KeyboardInterrupt subclass, and half of the loss "
+    "ZeroDivisionError subclasses, an exception with a two-argument constructor, an exception class defined inside a function (not picklable by reference) and a KeyboardInterrupt subclass, a third of the cases with verbose=True, and half of the loss "
     "faults are raised part-way through an evaluation. Oracle per fault: calibrate() raises the injected exception (in-process: the very "
     "object, once); with a saving folder the folder restores to exactly the completed batches (nothing for a fault in the first batch); "
     "counters and history equal the twin truncated to the batches completed before the fault and pass the C02 alignment "
@@ -38,7 +38,7 @@ ASSUMPTIONS = [
     "joblib/loky service threads are reported, not judged (no black_it frame on their stack)",
     "RL scheduler with a saving folder cannot run at all (known finding rl-scheduler-not-checkpointable under C04): that combination is counted, not enumerated",
 ]
-REQUIRED_COUNTERS = {"fault_class_value": 12, "fault_class_arith": 12, "fault_class_twoargs": 12, "loss_faults_part_way_through_an_evaluation": 15, "folder_restored_after_fault": 30, "faults_not_exception_subclass": 30, "faults_injected": 200, "faults_model": 80, "faults_loss": 40, "faults_sampler": 40, "faults_rl": 60, "faults_njobs2": 20,
+REQUIRED_COUNTERS = {"fault_class_value": 10, "fault_class_arith": 10, "fault_class_twoargs": 10, "fault_class_local": 10, "faults_with_verbose_on": 50, "loss_faults_part_way_through_an_evaluation": 15, "folder_restored_after_fault": 30, "faults_not_exception_subclass": 30, "faults_injected": 200, "faults_model": 80, "faults_loss": 40, "faults_sampler": 40, "faults_rl": 60, "faults_njobs2": 20,
                      "faults_with_folder": 60, "reuse_ok": 200, "child_process_exits": 2}
 SHARDS = {"quick": 16, "thorough": 16}
 SHARD_WATCHDOG = {"quick": 1500, "thorough": 10800}
@@ -121,9 +121,9 @@ def wrap_all(cal, pre):
     return st
 
 
-def build(cfg, folder, n_jobs, model=None, loss=None):
+def build(cfg, folder, n_jobs, model=None, loss=None, verbose=False):
     with quiet():
-        return CG.build_calibrator(cfg, folder=folder, n_jobs=n_jobs, model=model, loss=loss)
+        return CG.build_calibrator(cfg, folder=folder, n_jobs=n_jobs, model=model, loss=loss, verbose=verbose)
 
 
 def run_enum(desc, ctx, out):
@@ -149,7 +149,8 @@ def run_enum(desc, ctx, out):
     Fault = M.InjectedInterrupt if interrupt else M.InjectedFault
     # the class of the fault varies: plain Exception, ValueError / ZeroDivisionError subclasses (what "robust" code swallows), an
     # exception with a two-argument constructor (cannot be re-created from a message), KeyboardInterrupt subclass
-    fkind = "interrupt" if interrupt else (["plain", "value", "arith", "twoargs"][(i // 2) % 4] if n_jobs == 1 else "plain")
+    fkind = "interrupt" if interrupt else (["plain", "value", "arith", "twoargs", "local"][(i // 2) % 5] if n_jobs == 1 else "plain")
+    verbose = i % 3 == 2      # logging on: whatever the verbose path starts (timers, progress output) is gone too after the failure
     inside = target == "loss" and i % 2 == 1      # the loss fails part-way through an evaluation (after its first coordinates)
     D, P = cfg["D"], cfg["P"]
     L = len(cfg["lineup"]) + (1 if rl and not any(d["kind"] == "Halton" for d in cfg["lineup"]) else 0)
@@ -206,7 +207,8 @@ def run_enum(desc, ctx, out):
         elif target == "loss":
             loss = U.FailingMinkowski(k, interrupt=interrupt, kind=fkind, inside=inside)
         del M.RAISED[:]
-        cal = build(cfg, folder, n_jobs, model=model, loss=loss)
+        cal = build(cfg, folder, n_jobs, model=model, loss=loss, verbose=verbose)
+        cwd_before = os.getcwd()
         pristine = U.FailingMinkowski(None)
         before = {t.ident for t in threading.enumerate()}
         state = {"n": 0}
@@ -260,6 +262,11 @@ def run_enum(desc, ctx, out):
             raised = e
         cnt("faults_injected")
         cnt(f"faults_{target}")
+        if verbose:
+            cnt("faults_with_verbose_on")
+        if os.getcwd() != cwd_before:
+            out["violations"].append({"msg": f"fault at {target} invocation {k}: the process was left in another working directory ({os.getcwd()}), relative saving folders now point elsewhere", "witness": fw})
+            os.chdir(cwd_before)
         if rl:
             cnt("faults_rl")
             cnt("rl_line_events_with_yield_injection", getattr(inj, "events", 0))
